@@ -26,10 +26,11 @@ class Num(Val):
     cls   : ClassInfo when the value is an instance of a repo Quantity subclass (DispersionMeasure)
     backend: 'numpy' | 'dask' | None for data arrays
     """
-    __slots__ = ("expr", "kind", "shape", "axes", "unit", "cls", "backend", "tag", "dtype")
+    __slots__ = ("expr", "kind", "shape", "axes", "unit", "cls", "backend", "tag", "dtype", "isfloat")
 
     def __init__(self, expr, kind="number", shape=None, axes=None, unit=None, cls=None, backend=None,
-                 tag=None, dtype=None):
+                 tag=None, dtype=None, isfloat=False):
+        self.isfloat = isfloat
         self.expr = sp.sympify(expr)
         self.kind = kind
         self.shape = tuple(shape) if shape is not None else None
@@ -42,7 +43,7 @@ class Num(Val):
 
     def like(self, expr, **kw):
         d = dict(kind=self.kind, shape=self.shape, axes=self.axes, unit=None, cls=None,
-                 backend=self.backend, tag=None, dtype=self.dtype)
+                 backend=self.backend, tag=None, dtype=self.dtype, isfloat=self.isfloat)
         d.update(kw)
         return Num(expr, **d)
 
